@@ -114,6 +114,11 @@ class World:
 HOSTILE = ' {x} {0} {} %s %d {'
 
 
+class BlocksForever(BaseException):
+    """a simulated system call that would never return (not an Exception: nothing in lomond may swallow it); the run is reported
+    with the token HANG"""
+
+
 class FakeSocket:
     def __init__(self, world):
         self.w = world
@@ -157,7 +162,8 @@ class FakeSocket:
         o = w.pending_recv
         w.pending_recv = None
         if o is None:
-            raise AssertionError('recv without readable')
+            # recv on a blocking socket although the selector did not report it readable: the call never returns
+            raise BlocksForever()
         kind = o[0]
         if kind == 'eof':
             return 0
@@ -217,6 +223,10 @@ class FakeSelector:
         if step[0] == 'selerr':
             raise OSError(9, 'simulated selector failure' + HOSTILE)
         _, dt, outcome = step
+        if timeout is not None and timeout < 0 and outcome is None:
+            # poll(2) / epoll with a negative timeout wait until the descriptor is ready: a silent peer means for ever
+            w.env.insert(0, step)
+            raise BlocksForever()
         w.clock.t += float(dt) / w.sc.tdiv
         if dt:
             w.log('T:%d' % int((w.clock.t - w.t0) * w.sc.tdiv + 0.5))
@@ -472,6 +482,9 @@ def do_act(world, ws, act):
             ws.close(act[1], arg_value(act[2]))
         elif k == 'session_close':
             ws.session.close()
+        elif k == 'sleep':
+            # the application is slow: time passes while it handles the event (oracle-only scenarios; the model has no such act)
+            world.clock.t += float(act[1]) / world.sc.tdiv
         else:
             raise AssertionError(act)
     except Exception as e:  # noqa
@@ -820,6 +833,9 @@ def _run_one(ws, sc, world, held=None, sess_cls=None):
             gc.collect()      # finalise a dropped generator even if it sits in a reference cycle
     except ScriptEnd:
         world.log('INCOMPLETE')
+        world.recording = False
+    except BlocksForever:
+        world.log('HANG')
         world.recording = False
     for i, (tok, ev) in enumerate(world.kept):
         if show_event(ev) != tok:
